@@ -47,6 +47,9 @@ pub struct RcCase {
     /// concurrent mode: request i is issued this many ms after the start (missing = 0)
     #[serde(default)]
     pub starts: Vec<u64>,
+    /// builder call order (gen::apply_in_order); bit 7: decoy values set first
+    #[serde(default)]
+    pub setter_order: u8,
     /// sequential requests; per request a script of (latency ms, outcome: 0 ok, 1 reconnectable, 2 other error)
     pub requests: Vec<Vec<(u64, u8)>>,
 }
@@ -71,9 +74,12 @@ fn case_strategy(_tier: Tier) -> BoxedStrategy<RcCase> {
         prop::collection::vec(script, 1..=3),
         prop::bool::weighted(0.4),
         prop_oneof![5 => Just(1u64), 1 => Just(2u64), 1 => Just(5u64), 1 => 2u64..=40],
-        prop_oneof![1 => Just(vec![]), 2 => prop::collection::vec(prop_oneof![1 => Just(0u64), 2 => 0u64..=25], 3)],
+        (
+            prop_oneof![1 => Just(vec![]), 2 => prop::collection::vec(prop_oneof![1 => Just(0u64), 2 => 0u64..=25], 3)],
+            prop_oneof![2 => Just(0u8), 1 => 0u8..8, 1 => 128u8..136],
+        ),
     )
-        .prop_map(|(max_attempts, policy, retry_on_reconnect, predicate, mut requests, concurrent, step_ms, starts)| {
+        .prop_map(|(max_attempts, policy, retry_on_reconnect, predicate, mut requests, concurrent, step_ms, (starts, setter_order))| {
             if max_attempts.is_none() {
                 // unlimited attempts: make every script end in a success so the case terminates
                 for s in requests.iter_mut() {
@@ -88,6 +94,7 @@ fn case_strategy(_tier: Tier) -> BoxedStrategy<RcCase> {
                 concurrent,
                 step_ms,
                 starts,
+                setter_order,
                 requests,
             }
         })
@@ -170,16 +177,43 @@ async fn interp(case: &RcCase) -> Verdict {
         );
     }
     let inner = Scripted::from_table(log.clone(), table, Step::ok(0));
-    let mut b = ReconnectConfig::builder()
-        .policy(build_policy(&case.policy))
-        .retry_on_reconnect(case.retry_on_reconnect);
-    b = match case.max_attempts {
-        Some(m) => b.max_attempts(m),
-        None => b.unlimited_attempts(),
-    };
-    if case.predicate {
-        b = b.reconnect_predicate(|e| e.to_string().contains("code=1,"));
+    // builder discipline: setters in a generated order, optionally after other values of the same
+    // fields (bit 7) which they must override
+    let mut b0 = ReconnectConfig::builder();
+    if case.setter_order & 128 != 0 {
+        b0 = b0
+            .policy(ReconnectPolicy::fixed(Duration::from_millis(777)))
+            .retry_on_reconnect(!case.retry_on_reconnect);
+        b0 = match case.max_attempts {
+            Some(m) => b0.max_attempts(m + 3).unlimited_attempts(),
+            None => b0.max_attempts(1),
+        };
     }
+    let (pol, ror, ma, pred) = (
+        build_policy(&case.policy),
+        case.retry_on_reconnect,
+        case.max_attempts,
+        case.predicate,
+    );
+    let b = crate::gen::apply_in_order(
+        b0,
+        vec![
+            Box::new(move |b| b.policy(pol)),
+            Box::new(move |b| b.retry_on_reconnect(ror)),
+            Box::new(move |b| match ma {
+                Some(m) => b.max_attempts(m),
+                None => b.unlimited_attempts(),
+            }),
+            Box::new(move |b| {
+                if pred {
+                    b.reconnect_predicate(|e| e.to_string().contains("code=1,"))
+                } else {
+                    b
+                }
+            }),
+        ],
+        case.setter_order & 127,
+    );
     let layer = ReconnectLayer::new(b.build());
     let state = layer.state().clone();
     let mut svc = layer.layer(inner.clone());
